@@ -44,6 +44,12 @@ def run(ctx: core.Ctx) -> None:
                     ctx.violation("TwoPhaseIsSinglePhase", f"instantiation {inst.describe()} grid {g}: TwoPhaseReservoir differs from "
                                   "SinglePhaseReservoir", replay={"stage": "twophase", "variant": v, "grid": g})
     ownership(ctx)
+    # every task group of the re-entrancy clause in one place, plus the frame condition: a library call leaves the process-wide
+    # settings (numpy error state and print options, random states, warning filters, pandas options, matplotlib rcParams, ...) alone
+    from ..drivers import threads  # noqa: PLC0415
+
+    threads.clause(ctx, ["gas_z", "gas_props", "gas_pseudopressure", "tables", "sutton", "oil_water", "facade", "relperm", "reservoirs",
+                         "wrappers", "forecasts", "multiphase"], check_frame=True)
     ctx.sample({"kinds": ["twophase", "multiphase"], "depth": depth})
 
 
